@@ -284,7 +284,7 @@ impl Arm for C12 {
     }
     fn runs(&self, tier: Tier) -> u64 {
         match tier {
-            Tier::Quick => 3000,
+            Tier::Quick => 6000,
             Tier::Thorough => 150_000,
         }
     }
